@@ -451,8 +451,11 @@ def oracle_c19(case, lo):
                 s_ = int(case.fields["supported_degree"][0])
                 r = max(0, (s_).bit_length()) if (s_ + 1) & s_ else (s_ + 1).bit_length() - 1
                 base = 2 * (8 + r * 32) + 32 + 32 + 2
-                if size not in (base, base + 64):
-                    fails.append("ipa proof of %d bytes for supported degree %d: not two group elements per halving round (%d rounds)" % (size, s_, r))
+                # the hiding commitment and its randomness are present exactly when an opened polynomial is hiding
+                hid = any(case.fields["hiding.%d" % i][0] != "none" for i in sel)
+                if size != base + (64 if hid else 0):
+                    fails.append("ipa proof of %d bytes for supported degree %d (%s): not two group elements per halving round (%d rounds, expected %d bytes)"
+                                 % (size, s_, "hiding" if hid else "not hiding", r, base + (64 if hid else 0)))
             if sch == "hyrax":
                 nv = int(case.fields["num_vars"][0])
                 one = 3 * 32 + 8 + (1 << (nv // 2)) * 32 + 3 * 32
